@@ -1013,5 +1013,12 @@ pub fn gen(seed: u64, thorough: bool) -> Vec<String> {
             }
         }
     }
-    g.out
+    // balance the work of check.py's contiguous chunks: deterministic Fisher-Yates shuffle
+    let mut out = g.out;
+    let mut rng = Rng::new(seed ^ 0xC04);
+    for i in (1..out.len()).rev() {
+        let j = rng.below(i as u64 + 1) as usize;
+        out.swap(i, j);
+    }
+    out
 }
